@@ -688,3 +688,73 @@ func H09two() {
 	}
 	check(e2.Type.Kind == want2, "a reference denotes the typedef in the nearest enclosing scope of the referencing statement, whatever another reference to the same name resolved to")
 }
+
+// H09s: the remaining scopes a typedef can be declared in - list, rpc output, notification,
+// action input and output (YANG 1.1), a grouping nested in a grouping: a typedef named a or b
+// (symbolic) at one of these scopes shadows the module-level typedef a for a reference inside
+// the scope and is invisible to a reference next to the scope.
+func H09s() {
+	nb := symByte()
+	assume(symOr(nb == 'a', nb == 'b'))
+	rb := symByte()
+	assume(symOr(rb == 'a', rb == 'b'))
+	td := "typedef " + string([]byte{nb}) + " { type int32; } "
+	in := "leaf rin { type " + string([]byte{rb}) + "; } "
+	site := symChoice(6)
+	var scoped string
+	switch site {
+	case 0:
+		scoped = "list li { key k; leaf k { type string; } " + td + in + "} "
+	case 1:
+		scoped = "rpc r { output { " + td + in + "} } "
+	case 2:
+		scoped = "notification nt { " + td + in + "} "
+	case 3:
+		scoped = "container ca { action act { input { " + td + in + "} } } "
+	case 4:
+		scoped = "container ca { action act { output { " + td + in + "} } } "
+	case 5:
+		scoped = "grouping go { grouping gi { " + td + in + "} uses gi; } container cg { uses go; } "
+	}
+	m := `module m { yang-version 1.1; namespace "urn:m"; prefix m; typedef a { type int8; } ` + scoped + `leaf rout { type ` + string([]byte{rb}) + `; } }`
+	note(m)
+	ms, lerrs := hLoad(m)
+	check(len(lerrs) == 0, "the module parses")
+	errs := ms.Process()
+	okIn := symOr(rb == 'a', nb == rb)
+	okOut := rb == 'a'
+	if len(errs) > 0 {
+		reach("rejected")
+		check(symNot(symAnd(okIn, okOut)), "type references that bind to a typedef are resolved without error")
+		return
+	}
+	reach("resolved")
+	check(symAnd(okIn, okOut), "an unknown type reference is an error")
+	em := ToEntry(ms.Modules["m"])
+	var rin *Entry
+	switch site {
+	case 0:
+		rin = em.Dir["li"].Dir["rin"]
+	case 1:
+		rin = em.Dir["r"].RPC.Output.Dir["rin"]
+	case 2:
+		rin = em.Dir["nt"].Dir["rin"]
+	case 3:
+		rin = em.Dir["ca"].Dir["act"].RPC.Input.Dir["rin"]
+	case 4:
+		rin = em.Dir["ca"].Dir["act"].RPC.Output.Dir["rin"]
+	case 5:
+		rin = em.Dir["cg"].Dir["rin"]
+	}
+	rout := em.Dir["rout"]
+	check(rin != nil && rin.Type != nil && rout != nil && rout.Type != nil, "both leaves resolved")
+	if rin == nil || rin.Type == nil || rout == nil || rout.Type == nil {
+		return
+	}
+	wantIn := Yint8
+	if nb == rb {
+		wantIn = Yint32
+	}
+	check(rin.Type.Kind == wantIn, "a reference inside a list, output, notification, action input/output or nested grouping denotes the typedef of that scope before the module's")
+	check(rout.Type.Kind == Yint8, "a typedef declared in an inner scope is invisible outside it")
+}
